@@ -7,6 +7,7 @@
 package main
 
 import (
+	"strings"
 	"encoding/json"
 	"fmt"
 	"time"
@@ -73,6 +74,32 @@ func cases(spec *ukit.Spec, sch schema.Type, tier string) []kase {
 					continue
 				}
 				addAll(nv, fmt.Sprintf("valid#%d with %s at %s", vi, h.Name, pos.Path), h.Decoder)
+			}
+		}
+		if tier == "thorough" && vi == len(valids)-1 {
+			// two hostile values at two different positions of the fullest valid value (a reduced hostile set: the first ten
+			// a decoder can produce)
+			var h10 []ukit.HV
+			for _, h := range hostile {
+				if h.Decoder && len(h10) < 10 {
+					h10 = append(h10, h)
+				}
+			}
+			for _, p1 := range ukit.Positions(valid) {
+				if p1.IsKey || p1.Path == "$" {
+					continue
+				}
+				for _, h1 := range h10 {
+					nv1 := p1.Replace(h1.V)
+					for _, p2 := range ukit.Positions(nv1) {
+						if p2.IsKey || p2.Path == "$" || p2.Path <= p1.Path || strings.HasPrefix(p2.Path, p1.Path) || strings.HasPrefix(p1.Path, p2.Path) {
+							continue
+						}
+						for _, h2 := range h10 {
+							addAll(p2.Replace(h2.V), fmt.Sprintf("valid#%d with %s at %s and %s at %s", vi, h1.Name, p1.Path, h2.Name, p2.Path), true)
+						}
+					}
+				}
 			}
 		}
 		// the unserialized (native) form, whole and with hostile values at its positions
@@ -194,7 +221,7 @@ func main() {
 		},
 		Rule: "every spec of U_2 (all leaf kinds x bound presence combinations x units/patterns/enums; lists, maps, map-based and struct-mapped objects, one-ofs, scopes with references incl. recursive; containers of those) x {its own raw-value set V(spec); a valid value with each of ~55 hostile values substituted at every position (values and map keys); the unserialized native value likewise} x {Unserialize, data-mode ValidateCompatibility (decoder-producible values only), Validate, Serialize}; every case is a distinct (spec, operation, value) triple and exercises the operation",
 		Assumptions: []string{
-			"single substitution per value (one deviation from a valid value)",
+			"quick tier: a single substitution per value; thorough tier: also two substitutions at two different positions of the fullest valid value, over the first ten decoder-producible hostile values",
 			"nesting depth of hostile values bounded by 1000",
 			"a panic is caught per case; a fatal runtime error or a hang (120 s per batch that normally takes < 1 s) kills the worker and is attributed to the case in flight",
 		},
